@@ -16,14 +16,14 @@ CHECKS = {
         technique="Kani loop-free harnesses (full-domain symbolic store + u128 amounts) on the extracted increase/decrease_balance, fee, pay_fee, add_fee_to_block_fees, App::end_block, Transfer/BridgeLock/BridgeUnlock/Ics20Withdrawal execute",
         text="Each ledger-moving function is verified for all amounts and all initial states of the keys it touches: exact debit/credit in mathematical integers (no wrap, no saturation), "
              "conservation per call including the alias case, write frame (no other key changes), fee == base + multiplier*size exactly, fee debited from the signer only and credited to the block-fee map by the same amount, and end_block credits every asset's block total to the fee recipient exactly (map of <= 2 assets, bounded).",
-        note=KANI_TB + " Not under contract: BridgeTransfer, ICS-20 receive/refund are under C18, per-action FeeHandler impls, the lifting from per-call to per-block conservation (argued in DESIGN, not mechanised).",
+        note=KANI_TB + " BridgeTransfer is under C04, ICS-20 receive/refund under C18. Not under contract: per-action FeeHandler impls, the lifting from per-call to per-block conservation (argued in DESIGN, not mechanised).",
     ),
     "C02": dict(
         category="proof",
-        technique="Kani loop-free harnesses on run_mutable_checks+execute of Transfer, BridgeLock, BridgeUnlock, SudoAddressChange, IbcSudoChange, IbcRelayerChange, BridgeSudoChange against a symbolic store",
+        technique="Kani loop-free harnesses on run_mutable_checks+execute of Transfer, BridgeLock, BridgeUnlock, BridgeTransfer, Ics20Withdrawal, InitBridgeAccount, SudoAddressChange, IbcSudoChange, IbcRelayerChange, BridgeSudoChange, FeeChange (all 18 kinds), FeeAssetChange, ValidatorUpdate against a symbolic store",
         text="For each action under contract: execute == Ok implies the signer equals the authority read from the pre-state of that very call (signer itself and not a bridge account; current withdrawer; current sudo / ibc sudo / bridge sudo), "
              "and only the action's own key family is written (frame assertion over all other keys).",
-        note=KANI_TB + " Not under contract: FeeChange, FeeAssetChange, ValidatorUpdate (see C14), CurrencyPairsChange, MarketsChange, InitBridgeAccount, IbcRelay, Ics20Withdrawal, RecoverIbcClient, transaction signature verification (ed25519).",
+        note=KANI_TB + " Not under contract: CurrencyPairsChange, MarketsChange, IbcRelay, RecoverIbcClient, transaction signature verification (ed25519).",
     ),
     "C03": dict(
         category="proof",
@@ -34,10 +34,10 @@ CHECKS = {
     ),
     "C04": dict(
         category="proof",
-        technique="Kani loop-free harnesses on the extracted BridgeLock execute/record_deposit and BridgeUnlock run_mutable_checks/execute/record_withdrawal_event against a symbolic store with a deposit log",
+        technique="Kani loop-free harnesses on the extracted BridgeLock execute/record_deposit, BridgeUnlock and BridgeTransfer run_mutable_checks/execute/record_withdrawal_event, Ics20Withdrawal execute and ICS-20 recv_packet_execute against a symbolic store with a deposit log",
         text="BridgeLock: Ok implies exactly one deposit (the action's) is cached together with an equal credit of the named bridge account in the same call, Err implies no deposit and no deposit event. "
-             "BridgeUnlock: Ok implies the event id was unused in the pre-state and is recorded afterwards under (bridge address, id); a refused withdrawal consumes no id.",
-        note=KANI_TB + " Not under contract yet: BridgeTransfer, Ics20Withdrawal event-id use, construction of the Deposit in CheckedBridgeLockImpl::new, publication of cached deposits into the block.",
+             "BridgeUnlock: Ok implies the event id was unused in the pre-state and is recorded afterwards under (bridge address, id); a refused withdrawal consumes no id. BridgeTransfer and Ics20Withdrawal: same event-id contract under the bridge address, debit of the source bridge equals the deposit/credit on the destination; an error-acknowledged ICS-20 receive leaves no cached deposit.",
+        note=KANI_TB + " Not under contract: construction of the Deposit in CheckedBridgeLockImpl::new, publication of cached deposits into the block.",
     ),
     "C05": dict(
         category="other",
@@ -75,10 +75,10 @@ CHECKS = {
     ),
     "C10": dict(
         category="other",
-        technique="Kani harnesses on the extracted BlockCache (pop/insert/drop_obsolete against a representation invariant, symbolic contents, capacity 3), should_execute_firm_block, does_block_response_fulfill_contract and the rollup/sequencer height mapping",
+        technique="Kani harnesses on the extracted BlockCache (representation invariant, capacity 3), should_execute_firm_block, does_block_response_fulfill_contract, the height mapping, and step contracts on the extracted Initialized::execute_soft / execute_firm / execute_block / update_commitment_state against a logging rollup client; Verus induction lemma over a transcription of the step contracts for arbitrary interleavings",
         text="BlockCache hands out exactly the block of the next expected height, once, rejects old and duplicate deliveries, never lowers its next height and keeps its invariant; a firm block is executed iff soft has not executed that height; the rollup must answer with exactly current+1; the height mapping is exact and inverse. "
-             "The executor step functions (execute_soft/execute_firm/update_commitment_state) and the interleaving lemma are not built.",
-        note="level other: kernel only. Trusted: Kani/CBMC, ordered-map stand-in for BTreeMap (capacity 3, labelled bounded), tendermint Height <= i64::MAX. Not covered: executor steps, tokio select loop, reader tasks.",
+             "Executor steps: a soft block is executed only at exactly the next soft height (older: ignored without any call, newer: error without any call), a firm block only at exactly the next firm height and executed only if soft has not already executed it, at most one ExecuteBlock per step, commitments move by one and firm <= soft. A Verus lemma proves from a transcription of these step contracts that any finite interleaving executes the heights start..next-1 once each in order.",
+        note="level other: kernel only. Trusted: Kani/CBMC, ordered-map stand-in for BTreeMap (capacity 3, labelled bounded), tendermint Height <= i64::MAX. The transition relation used by the interleaving lemma is a hand transcription of the step contracts (trusted). Not covered: tokio select loop, reader tasks, restart.",
     ),
     "C11": dict(
         category="other",
@@ -95,9 +95,9 @@ CHECKS = {
     ),
     "C13": dict(
         category="other",
-        technique="Kani full-domain harnesses on the extracted TransactionPriority ordering and on TransactionsForAccount::add for the pending container (symbolic contents, capacity 3)",
-        text="The builder-queue priority is a total order that puts a lower nonce of the same group first; add on the ready container preserves `consecutive nonces starting at the account nonce` and joint affordability, and a refused add leaves the container untouched with the stated reason.",
-        note="level other: container kernel. Trusted: Kani/CBMC, ordered-map stand-in, single-asset cost model. Not covered: parked containers, promotion/demotion, TransactionsContainer, Mempool orchestration and the exactly-one-place invariant.",
+        technique="Kani full-domain harnesses on the extracted TransactionPriority ordering and TransactionsForAccount::add for the pending container (capacity 3); bounded Kani harness on the extracted MempoolInner::run_maintenance against contract-level container stand-ins",
+        text="The builder-queue priority is a total order that puts a lower nonce of the same group first; add on the ready container preserves `consecutive nonces starting at the account nonce` and joint affordability, and a refused add leaves the container untouched with the stated reason. run_maintenance (one account, <= 2 ready + <= 2 parked, bounded): every transaction ends in exactly one of ready / parked / reported-removed, no used nonce remains, the membership index agrees, the ready queue is consecutive from the account nonce and jointly affordable, and no internal-logic-error branch is taken.",
+        note="level other: container kernel. Trusted: Kani/CBMC, ordered-map stand-in, single-asset cost model. The per-account containers under run_maintenance are stand-ins implementing their contracts (trusted). Not covered: parked container internals, Mempool::insert/remove_tx_invalid orchestration, builder_queue.",
     ),
     "C14": dict(
         category="proof",
@@ -108,9 +108,9 @@ CHECKS = {
     ),
     "C15": dict(
         category="proof",
-        technique="Verus contracts on the extracted price_feed::utils::median and Price arithmetic (sort specified as sorted permutation)",
-        text="For every list of i128 prices of any length: median never panics, returns None exactly for the empty list, and the returned value lies between the minimum and maximum reported price.",
-        note="Trusted: Verus/Z3, slice::sort_unstable specified as a sorted permutation, specs for Option::copied / div_euclid / rem_euclid. Not under contract yet: validate_vote_extensions, validate_extended_commit_against_last_commit, aggregate_oracle_votes grouping.",
+        technique="Verus contracts on the extracted price_feed::utils::median and Price arithmetic (sort specified as sorted permutation); Kani harnesses on the extracted validate_vote_extensions and validate_extended_commit_against_last_commit with logged signature checks (bounded 2 votes)",
+        text="For every list of i128 prices of any length: median never panics, returns None exactly for the empty list, and the returned value lies between the minimum and maximum reported price. Vote extensions enter only with a logged valid signature of a validator in the set over this chain and height, with > 2/3 of power, and the extended commit must agree with the last commit vote by vote (bounded to 2 votes).",
+        note="Trusted: Verus/Z3, slice::sort_unstable specified as a sorted permutation, specs for Option::copied / div_euclid / rem_euclid. Not under contract: aggregate_oracle_votes grouping, currency-pair id mapping, price application order (K2).",
     ),
     "C16": dict(
         category="proof",
